@@ -15,7 +15,11 @@ RULE = ("EventManager with 1..12 sources of generated kinds (pulse, rising/falli
         "same source, or a clear of one source while another is pending; distinct = canonical JSON")
 ASSUMPTIONS = ["Migen's simulator (site-packages) defines FHDL semantics",
                "multi-word pending/enable registers are written with the complete accessor sequence (all words, address order) - documented multi-word r/re semantics",
-               "CSR bank semantics as checked by C12"]
+               "CSR bank semantics as checked by C12",
+               "gpio-irq: judged on the synchronised input shown in the core's own status register; inputs hold each level >= 4 cycles "
+               "(in Change mode the trigger is in ^ in_delayed, a level of its own: changes in consecutive cycles merge into one event); "
+               "the configuration is written before the inputs move and its artefacts (writing Edge=1 while the input is low raises the "
+               "trigger) are cleared; events within 4 cycles of a clear are not judged"]
 
 KINDS = ["pulse", "rising", "falling", "level"]
 
@@ -256,10 +260,114 @@ def enum_align(tier):
     return out
 
 
+# ------------------------------------------------------------------------------------ GPIO interrupt client
+
+def st_gpio(tier):
+    @st.composite
+    def case(draw):
+        n = draw(st.integers(1, 4))
+        T = draw(st.integers(40, 80 if tier == "quick" else 160))
+        waves = []
+        for _ in range(n):
+            runs = draw(st.lists(st.tuples(st.integers(0, 1), st.integers(4, 9)), min_size=2, max_size=14))
+            waves.append([b for b, k in runs for _ in range(k)])
+        clears = sorted(draw(st.lists(st.tuples(st.integers(16, T - 4), st.integers(1, _m(n))), max_size=4)))
+        return {"n": n, "mode": draw(st.integers(0, _m(n))), "edge": draw(st.integers(0, _m(n))), "waves": waves, "clears": [list(c) for c in clears],
+                "tristate": draw(st.booleans()), "T": T}
+    return case()
+
+
+def run_gpio(case):
+    """GPIOIn / GPIOTristate(with_irq=True): 'Mode 0: Edge, 1: Change; Edge 0: Rising, 1: Falling' per pad (the CSR descriptions),
+    judged on the synchronised input the core itself shows in its status register"""
+    from migen import Module, Signal, Record
+    from litex.soc.interconnect import csr_bus
+    from litex.soc.cores import gpio
+    n, T = case["n"], case["T"]
+    top = Module()
+    if case.get("tristate"):
+        pads = Record([("o", n), ("oe", n), ("i", n)])
+        dut = gpio.GPIOTristate(pads, with_irq=True)
+        pin = pads.i
+    else:
+        pin = Signal(n)
+        dut = gpio.GPIOIn(pin, with_irq=True)
+    bus = csr_bus.Interface(data_width=32, address_width=14)
+    bank = csr_bus.CSRBank(dut.get_csrs(), address=0, bus=bus, paging=0x800, ordering="big")
+    top.submodules += dut, bank
+    adr = {}
+    for i, c in enumerate(bank.simple_csrs):
+        adr[c.name] = i
+        if c.name.endswith("0"):
+            adr.setdefault(c.name[:-1], i)       # one-word storages are named <name>0
+    need = ["mode", "edge", "ev_pending", "ev_enable"]
+    if any(k not in adr for k in need):
+        raise RuntimeError("GPIO CSR names %r" % sorted(adr))
+    writes = {2: (adr["mode"], case["mode"]), 3: (adr["edge"], case["edge"]), 4: (adr["ev_enable"], _m(n)), 9: (adr["ev_pending"], _m(n))}
+    for c, mask in case["clears"]:
+        writes[c] = (adr["ev_pending"], mask)
+    START = 14                      # inputs move only after the configuration has been written and its artefacts cleared
+    w = bench.Writer()
+
+    def drive(t):
+        d = {}
+        v = 0
+        for i, wv in enumerate(case["waves"]):
+            k = t - START
+            b = wv[0] if k < 0 else (wv[k] if k < len(wv) else wv[-1])
+            v |= b << i
+        d[pin] = v
+        if t in writes:
+            d[bus.adr], d[bus.we], d[bus.dat_w] = writes[t][0], 1, writes[t][1]
+        else:
+            d[bus.adr], d[bus.we], d[bus.dat_w] = 0, 0, 0
+        return d
+    probe = bench.Probe([dut._in.status, dut.ev.pending.status, dut.ev.irq, dut.ev.enable.storage])
+    cyc = bench.run(top, [bench.Driver(drive), probe], T + START + 8)
+    tr = probe.trace
+    cls = ["gpio:%s" % ("tristate" if case.get("tristate") else "in"), "pads%d" % n]
+    if len({(case["edge"] >> i) & 1 for i in range(n) if not (case["mode"] >> i) & 1}) == 2:
+        cls.append("mixed-edges")
+    clear_cycles = sorted(c for c in writes if writes[c][0] == adr["ev_pending"])
+    ctx = "%s(%d pads, with_irq) mode=%s edge=%s" % ("GPIOTristate" if case.get("tristate") else "GPIOIn", n, bin(case["mode"]), bin(case["edge"]))
+    events = 0
+    for i in range(n):
+        chg = (case["mode"] >> i) & 1
+        fall = (case["edge"] >> i) & 1
+        what = "change" if chg else ("falling edge" if fall else "rising edge")
+        ev_at = []
+        for t in range(START + 2, len(tr)):
+            a, b = (tr[t - 1][0] >> i) & 1, (tr[t][0] >> i) & 1
+            if (chg and a != b) or (not chg and not fall and (a, b) == (0, 1)) or (not chg and fall and (a, b) == (1, 0)):
+                ev_at.append(t)
+        events += len(ev_at)
+        for t in ev_at:
+            if t + 3 >= len(tr):
+                continue
+            # a clear written in trace index c takes effect around c+1..c+2
+            if any(t - 3 <= c <= t + 4 for c in clear_cycles):
+                continue
+            if not (tr[t + 3][1] >> i) & 1:
+                return bad("gpio-event-lost", "%s: pad %d (%s mode): input %d->%d in cycle %d, pending bit still 0 three cycles later" %
+                           (ctx, i, what, (tr[t - 1][0] >> i) & 1, (tr[t][0] >> i) & 1, t), key="c15:gpio", cls=cls, cycles=cyc)
+        for t in range(START + 2, len(tr) - 1):
+            if not (tr[t - 1][1] >> i) & 1 and (tr[t][1] >> i) & 1:
+                if not any(t - 4 <= e <= t for e in ev_at):
+                    return bad("gpio-event-spurious", "%s: pad %d (%s mode): pending bit rises in cycle %d without a %s of the input in the four cycles before "
+                               "(input history %r)" % (ctx, i, what, t, what, [(x[0] >> i) & 1 for x in tr[max(0, t - 6):t + 1]]), key="c15:gpio", cls=cls, cycles=cyc)
+    for t in range(START, len(tr)):
+        if tr[t][2] != int((tr[t][1] & tr[t][3]) != 0):
+            return bad("irq", "%s: cycle %d: irq=%d, pending=%#x enable=%#x" % (ctx, t, tr[t][2], tr[t][1], tr[t][3]), key="c15:gpio", cls=cls, cycles=cyc)
+    return ok(nt=events >= 2 and n >= 2, cls=cls, cycles=cyc)
+
+
 def subchecks():
     return [
         Sub("manager", run_case, strategy=st_case, examples=(2500, 80000),
             rule="generated managers, trigger waveforms and CSR programs vs cycle-accurate model"),
         Sub("alignment", run_case, enum=enum_align, exhaustive=True,
             rule="every source kind x bus width x ALL (trigger start 2..9, clear-write cycle 1..11, width 1..3) alignments"),
+        Sub("gpio-irq", run_gpio, strategy=st_gpio, examples=(600, 12000),
+            rule="the GPIO client (GPIOIn / GPIOTristate with_irq): per-pad mode (edge/change) and polarity, generated input waveforms "
+                 "(levels held >= 4 cycles) and clears; no qualifying input event lost, no pending bit without one, irq = OR(pending & enable)"),
     ]
